@@ -286,6 +286,12 @@ def reset_world(entropy_seed=0):
     """Start of every run: pristine clock, entropy and thresholds."""
     CLOCK.reset()
     ENTROPY.reset(entropy_seed)
+    # other routes to entropy a (correct) library might take: the OS source and the
+    # process-wide `random` generator.  Runs execute in forked children only, so the
+    # parent's own use of os.urandom (temporary names, multiprocessing) is untouched.
+    _os.urandom = ENTROPY.token_bytes
+    import random as _random
+    _random.seed(entropy_seed)
     for k in list(F.flags):
         if k not in PRISTINE_FLAGS:
             del F.flags[k]
